@@ -16,7 +16,9 @@ import (
 )
 
 func TestVerif(t *testing.T) {
-	grpclog.SetLoggerV2(grpclog.NewLoggerV2(io.Discard, io.Discard, io.Discard))
+	// highest verbosity, output discarded: the verbosity-guarded log statements of the library (and the
+	// expressions they evaluate) are part of what runs in production when somebody turns logging up
+	grpclog.SetLoggerV2(grpclog.NewLoggerV2WithVerbosity(io.Discard, io.Discard, io.Discard, 99))
 	compLogger = grpclog.Component("grpcgcp")
 	checks := map[string]vsched.CheckFunc{}
 	for _, p := range []string{"C01", "C02", "C03", "C04", "C05", "C06", "C07", "C08", "C09", "C20"} {
